@@ -226,3 +226,7 @@ def run(P: Program, R: Report, tier: str) -> None:
 
     nearest_neighbour(P, R, "R03.4")
     c02.history_shape(P, R)
+    # ---- R03.5 a query of the data model never answers from a memo that some writer forgets to drop
+    from .memo import no_stale_memo
+
+    no_stale_memo(P, R, "R03.5")
